@@ -69,6 +69,7 @@ type GuardEngine struct {
 	Depth int
 	rootDepth int
 	factDepth int
+	nonNilCtor map[*ssa.Function]bool
 }
 
 func NewGuardEngine(p *Program, depth int) *GuardEngine {
@@ -228,6 +229,36 @@ func (ge *GuardEngine) definitelyRejects(fi *fnInfo, b *ssa.BasicBlock, rv ssa.V
 			pp := f.Pkg.Pkg.Path()
 			if (pp == "errors" && f.Name() == "New") || (pp == "fmt" && f.Name() == "Errorf") {
 				return true
+			}
+			// module error constructors: every return is a non-nil error
+			if ge.p.InModule(f) && len(f.Blocks) > 0 && fnKind(f) == "error" {
+				if v, ok := ge.nonNilCtor[f]; ok {
+					if v {
+						return true
+					}
+					break
+				}
+				if ge.nonNilCtor == nil {
+					ge.nonNilCtor = map[*ssa.Function]bool{}
+				}
+				ge.nonNilCtor[f] = false // cycles
+				cfi := ge.info(f)
+				all, n := true, 0
+				for _, cb := range f.Blocks {
+					if len(cb.Instrs) == 0 {
+						continue
+					}
+					if r, ok := cb.Instrs[len(cb.Instrs)-1].(*ssa.Return); ok && len(r.Results) > 0 {
+						n++
+						if !ge.definitelyRejects(cfi, cb, r.Results[len(r.Results)-1], depth+1) {
+							all = false
+						}
+					}
+				}
+				ge.nonNilCtor[f] = all && n > 0
+				if all && n > 0 {
+					return true
+				}
 			}
 		}
 	case *ssa.UnOp:
